@@ -216,6 +216,37 @@ class PostAdd:
         return add(self.kind, data, self.k)
 
 
+def hstr(text):
+    """checksum of a string; Model/C11_fsops.v hstr computes the same number"""
+    h = 7
+    for ch in text.encode("latin-1", "replace"):
+        h = (h * 31 + ch) % 9973
+    return h
+
+
+def info_label(root, file_info):
+    """checksum of what a FileInfo says: path (relative to the root of the tree), the two times, the attributes;
+    Model/C11_fsops.v t_lab computes the same number from the entry of the file"""
+    p = "R/" + os.path.relpath(str(file_info.path), root).replace(os.sep, "/")
+    times = list(getattr(file_info, "times", None) or [None, None])
+    s = to_us(times[0]) % 9973 if times[0] is not None else 0
+    e = to_us(times[1]) % 9973 if times[1] is not None else 0
+    a = sum(3 * hstr(str(k)) + hstr(str(v)) for k, v in dict(getattr(file_info, "attr", None) or {}).items())
+    return (hstr(p) + s + 7 * e + a) % 9973
+
+
+class PostLabel:
+    """post_reader(file_info, data) that LOOKS AT file_info, as the documented signature allows: it labels the payload
+    with the file it is told the data come from (payload + k + 1000 * checksum of file_info.path relative to the tree,
+    file_info.times, file_info.attr).  The law: post_reader is handed the FileInfo of the file that was read -- the
+    path, times and attributes find() reports -- for plain and for compressed files alike."""
+    def __init__(self, kind, k, root):
+        self.kind, self.k, self.root = kind, k, root
+
+    def __call__(self, file_info, data):
+        return add(self.kind, data, self.k + 1000 * info_label(self.root, file_info))
+
+
 class Convert:
     """convert(data): from the source's object kind to the destination's, adding k; it raises for the payload `bad`
     (a record the user's function cannot convert)"""
@@ -249,7 +280,7 @@ def build_fileset(root, cfg, picky=None):
         wa, ra = CSV_ARGS[cfg.get("csv_args", 0)]
         kw["write_args"], kw["read_args"] = dict(wa), dict(ra)
     if cfg["post"] is not None:
-        kw["post_reader"] = PostAdd(kind, cfg["post"])
+        kw["post_reader"] = (PostLabel(kind, cfg["post"], root) if cfg.get("plabel") else PostAdd(kind, cfg["post"]))
     if cfg["cov"] is not None:
         kw["time_coverage"] = timedelta(seconds=cfg["cov"])
     if cfg.get("worker") == "thread" or kind == "nc":
@@ -312,10 +343,32 @@ def listing(root):
     for dp, _, fns in os.walk(root):
         for fn in fns:
             p = os.path.join(dp, fn)
-            with open(p, "rb") as f:
-                raw = f.read()
+            try:
+                with open(p, "rb") as f:
+                    raw = f.read()
+            except OSError:          # a dangling symbolic link: a name without content
+                out["R/" + os.path.relpath(p, root).replace(os.sep, "/")] = [-3]
+                continue
             out["R/" + os.path.relpath(p, root).replace(os.sep, "/")] = sniff(raw)
     return out
+
+
+def links(root):
+    """groups of paths of the tree that are one and the same file (same device and inode): hard links"""
+    seen = {}
+    for dp, _, fns in os.walk(root):
+        for fn in fns:
+            p = os.path.join(dp, fn)
+            try:
+                st = os.stat(p, follow_symlinks=False)
+            except OSError:
+                continue
+            name = "R/" + os.path.relpath(p, root).replace(os.sep, "/")
+            if os.path.islink(p):        # a symbolic link is no file of its own either
+                seen.setdefault(("link", name), []).extend([name, "-> " + os.readlink(p)])
+            elif st.st_nlink > 1:
+                seen.setdefault((st.st_dev, st.st_ino), []).append(name)
+    return sorted(sorted(g) for g in seen.values() if len(g) > 1)
 
 
 def rel(root, p):
@@ -441,10 +494,31 @@ def run_case(case):
                         chosen = []
                     elif not chosen:
                         r["skipped"] = "no file to pick"
-                        records.append({"op": r, "out": {"status": "skipped"}, "after": listing(root)})
+                        records.append({"op": r, "out": {"status": "skipped"}, "after": listing(root), "links": links(root)})
                         continue
                     r["files"] = [rel(root, f.path) for f in chosen]
-                if name == "write":
+                if name == "overwrite":
+                    # history: an EXISTING file of this fileset is written again, under its own name (the handlers open
+                    # the path for writing: the same inode is truncated and refilled, nothing is renamed)
+                    ex = existing(root, fs, cfg)
+                    if not ex:
+                        records.append({"op": r, "out": {"status": "skipped"}, "after": listing(root),
+                                        "links": links(root)})
+                        continue
+                    f = ex[op["pick"] % len(ex)]
+                    r["path"] = rel(root, f.path)
+                    data = mk(kind, op["v"])
+                    if op.get("how") == "setitem":
+                        # fileset[s:e] = data with the period (and placeholder values) the file is found under
+                        r["s"], r["e"] = to_us(f.times[0]), to_us(f.times[1])
+                        r["fill"] = {str(k_): str(v_) for k_, v_ in f.attr.items()} or None
+                        if f.attr:
+                            fs[f.times[0]:f.times[1], dict(f.attr)] = data
+                        else:
+                            fs[f.times[0]:f.times[1]] = data
+                    else:
+                        fs.write(data, f.path if op["pick"] % 2 else f)
+                elif name == "write":
                     s, e = from_us(op["s"]), from_us(op["e"])
                     data = mk(kind, op["v"])
                     key = slice(s, e) if op["slice"] else s
@@ -495,6 +569,7 @@ def run_case(case):
                             pass
                     if name == "read":
                         r["path"] = rel(root, f.path)
+                        r["bare"] = bool(op["pick"] % 2)     # read("path"): post_reader gets FileInfo(path), no times
                         k = call_offset(op, kind)
                         if k is not None:
                             r["call"] = k       # read(file, **read_args): arguments of this call only
@@ -513,7 +588,12 @@ def run_case(case):
                     if k is not None:
                         r["call"] = k           # collect(..., read_args={...}): arguments of this call only
                         ckw["read_args"] = {"offset": k}
-                    if op.get("use_files"):
+                    if op.get("icollect"):
+                        # the generator form: (FileInfo, content) pairs, chunk by chunk
+                        pairs = list(fs.icollect(files=chosen, return_info=True, **ckw) if op.get("use_files")
+                                     else fs.icollect(return_info=True, **kw, **ckw))
+                        infos, datas = [i for i, _ in pairs], [d_ for _, d_ in pairs]
+                    elif op.get("use_files"):
                         infos, datas = fs.collect(files=chosen, return_info=True, **ckw)
                     elif op.get("slice") and "filters" not in kw and k is None:
                         datas = fs[kw.get("start"):kw.get("end")]
@@ -616,7 +696,7 @@ def run_case(case):
                 out["obj"], out["obj_init"] = obj_state(fs), fs_init
             except Exception as ex:  # noqa
                 out["obj"], out["obj_init"] = f"{type(ex).__name__}: {ex}", fs_init
-            records.append({"op": r, "out": out, "after": listing(root)})
+            records.append({"op": r, "out": out, "after": listing(root), "links": links(root)})
         return {"id": case["id"], "records": records}
     finally:
         shutil.rmtree(root, ignore_errors=True)
